@@ -195,11 +195,17 @@ impl PacketSender {
                     0
                 };
 
-            let pending_packet = Rc::new(RefCell::new(PendingPacket::new(packet.data,
-                                                                         packet.channel_id,
-                                                                         sequence_id,
-                                                                         window_parent_lead,
-                                                                         channel_parent_lead)));
+            let mut pending_packet = PendingPacket::new(packet.data,
+                                                        packet.channel_id,
+                                                        sequence_id,
+                                                        window_parent_lead,
+                                                        channel_parent_lead);
+
+            if packet.mode == SendMode::TimeSensitive {
+                pending_packet.set_expiry_flush_id(packet.flush_id);
+            }
+
+            let pending_packet = Rc::new(RefCell::new(pending_packet));
 
             let pending_packet_clone = Rc::clone(&pending_packet);
 
